@@ -519,25 +519,38 @@ fn gen_block(rng: &mut Rng, n: usize, frame: &[u8]) -> Vec<u8> {
     v
 }
 
-/// a block built from 5-byte keys that collide in a 1024-slot store (the minimum store size)
+/// size log of the suffix store `commit_space` picks for a block of `n` bytes when the pool is empty
+fn store_log(n: usize) -> u32 {
+    n.next_power_of_two().max(1024).ilog2()
+}
+
+/// a block built around 5-byte keys that collide in the store the block will get (`len_log` bits of
+/// the hash; the shift `64 - len_log` is part of what is compared): filler bytes in between, so that
+/// larger stores (len_log 11..17) are probed as well.  Without a `SuffixStore::key` hook the hash is
+/// compared through its collision behaviour: model and code must agree on which keys evict which.
 fn gen_collision_block(rng: &mut Rng, n: usize) -> Vec<u8> {
+    let len_log = store_log(n);
     let mut keys: Vec<[u8; 5]> = vec![];
     let first: [u8; 5] = [rng.next() as u8, rng.next() as u8, rng.next() as u8, rng.next() as u8, rng.next() as u8];
-    let slot = aim_key(&first, 10);
+    let slot = aim_key(&first, len_log);
     keys.push(first);
     let mut tries = 0;
-    while keys.len() < 3 && tries < 200000 {
+    while keys.len() < 3 && tries < 3_000_000 {
         tries += 1;
         let k: [u8; 5] = [rng.next() as u8, rng.next() as u8, rng.next() as u8, rng.next() as u8, rng.next() as u8];
-        if aim_key(&k, 10) == slot && !keys.contains(&k) {
+        if aim_key(&k, len_log) == slot && !keys.contains(&k) {
             keys.push(k);
         }
     }
+    let fill = if n > 200 { n / 40 } else { 0 };
     let mut v = vec![];
     while v.len() < n {
         let k = keys[rng.below(keys.len() as u64) as usize];
         v.extend_from_slice(&k);
         if rng.chance(1, 3) {
+            v.push(rng.next() as u8);
+        }
+        for _ in 0..rng.below(fill as u64 + 1) {
             v.push(rng.next() as u8);
         }
     }
@@ -593,7 +606,12 @@ fn random_scenario(s: &mut Session, run: &mut Run, rng: &mut Rng, slice: usize, 
             _ => rng.range(1, l as u64) as usize,
         };
         let frame = s.frame.clone();
-        let data = if rng.chance(1, 10) && n >= 10 { gen_collision_block(rng, n) } else { gen_block(rng, n, &frame) };
+        let data = if rng.chance(1, 10) && n >= 10 {
+            run.stat(&format!("collision_blocks_lenlog_{}", store_log(n)), 1);
+            gen_collision_block(rng, n)
+        } else {
+            gen_block(rng, n, &frame)
+        };
         s.op_commit(run, &data, None);
         if rng.chance(1, 8) {
             s.op_last(run);
@@ -887,7 +905,12 @@ pub fn run(opts: &Opts) -> Run {
                 break;
             }
             let n = if b + 1 == nblocks { rng.range(1, l as u64) as usize } else { l };
-            let mut d = big_data(&mut rng, n, (i % 3) as u64);
+            let mut d = if i % 3 == 1 && n > 70000 {
+                run.stat(&format!("collision_blocks_lenlog_{}", store_log(n)), 1);
+                gen_collision_block(&mut rng, n)
+            } else {
+                big_data(&mut rng, n, (i % 3) as u64)
+            };
             if b > 0 && n > 4000 && s.frame.len() >= 3000 {
                 // content of the previous block again: must NOT be matched at production size (window = one block)
                 let f = s.frame.clone();
